@@ -14,7 +14,9 @@ use crate::props::Prop;
 
 pub struct C08;
 
-struct W<'t> {
+pub struct W<'t> {
+    /// C12: no READ / INPUT / LINE INPUT / PRINT USING / INPUT # / LINE INPUT # / GET (statements that convert external data)
+    pub no_external: bool,
     t: Tape<'t>,
     lines: Vec<String>,
     procs: Vec<String>,
@@ -41,8 +43,9 @@ const STRS: [&str; 10] = ["\"\"", "\"a\"", "\"Hello\"", "\"x,y\"", "\"  pad  \""
 const FILES: [&str; 3] = ["\"f1.tmp\"", "\"f2.tmp\"", "\"f3.tmp\""];
 
 impl<'t> W<'t> {
-    fn new(tape: &'t [u32]) -> Self {
+    pub fn new(tape: &'t [u32]) -> Self {
         W {
+            no_external: false,
             t: Tape::new(tape),
             lines: vec![],
             procs: vec![],
@@ -344,7 +347,11 @@ impl<'t> W<'t> {
     }
 
     fn simple(&mut self) {
-        match self.t.choose(30) {
+        let mut k = self.t.choose(30);
+        if self.no_external && matches!(k, 8 | 10 | 11 | 12) {
+            k = 20;
+        }
+        match k {
             0 | 1 | 2 => {
                 let t = self.num_target();
                 let e = self.num(2);
@@ -466,7 +473,11 @@ impl<'t> W<'t> {
     fn file_stmt(&mut self) {
         let h = 1 + self.t.choose(3);
         let f = *self.t.pick(&FILES);
-        match self.t.choose(14) {
+        let mut k = self.t.choose(14);
+        if self.no_external && matches!(k, 5 | 6 | 12) {
+            k = 13;
+        }
+        match k {
             0 | 1 => {
                 self.used("OPEN");
                 let mode = *self.t.pick(&["OUTPUT", "INPUT", "APPEND", "OUTPUT"]);
@@ -662,7 +673,7 @@ impl<'t> W<'t> {
         }
     }
 
-    fn program(mut self, size: usize, mischief: u32) -> (String, Vec<&'static str>) {
+    pub fn program(mut self, size: usize, mischief: u32) -> (String, Vec<&'static str>) {
         // declarations
         if self.t.chance(1, 3) {
             self.lines.push("TYPE RecT".into());
